@@ -11,7 +11,7 @@ open Dsd.Bracket
 /-- the result of the exhausted loop: it only depends on the collected rotations -/
 def finish (n : Nat) (seen : List CKey) : Except Out CplxIds :=
   match minKey seen with
-  | none => .error (.fault "IndexError")
+  | none => .error .objectInitErr
   | some c => .ok { canon := c, turns := wrap (-(lastIdxOf seen c : Int)) n, keys := seen.eraseDups }
 
 theorem loop_zero (r : Reg CKey) (n e : Nat) (s : List String) (t : List Char) (seen : List CKey) :
